@@ -61,7 +61,15 @@ void ares_close_connection(ares_conn_t *conn, ares_status_t requeue_status)
   ares_llist_destroy(conn->queries_to_conn);
   conn->queries_to_conn = NULL;
 
-  ares_conn_sock_state_cb_update(conn, ARES_CONN_STATE_NONE);
+  /* Requeuing may have completed queries, and a callback calling
+   * ares_set_servers*() may have released conn->server by now: notify through
+   * the channel, not through ares_conn_sock_state_cb_update() */
+  if ((conn->state_flags & ARES_CONN_STATE_CBFLAGS) != ARES_CONN_STATE_NONE &&
+      channel->sock_state_cb) {
+    channel->sock_state_cb(channel->sock_state_cb_data, conn->fd, 0, 0);
+  }
+  conn->state_flags &= ~((unsigned int)ARES_CONN_STATE_CBFLAGS);
+  conn->server       = NULL;
 
   ares_socket_close(channel, conn->fd);
 
